@@ -121,12 +121,21 @@ def check(prop, scn, seed, models=None, skipped=None, extra_probes=None):
                 findings.append({"property": prop, "rule": "outcome-mismatch", "witness": None,
                                  "detail": "%s: %s" % (ex["name"], diff)})
         if prop == "C05":
+            from model.asl import has_placeholder
             want = {}
+            loose = set()   # functions whose payload contains text the model does not predict: compare counts only
             for mo in models.values():
                 for (t, fn, payload, name, attempt) in mo.requests:
-                    k = (fn, json.dumps(payload, sort_keys=True))
+                    if has_placeholder(payload):
+                        loose.add(fn)
+            for mo in models.values():
+                for (t, fn, payload, name, attempt) in mo.requests:
+                    k = (fn, "*" if fn in loose else json.dumps(payload, sort_keys=True))
                     want[k] = want.get(k, 0) + 1
-            got = requests_multiset(res.world.workers.requests)
+            got = {}
+            for r in res.world.workers.requests:
+                k = (r["fn"], "*" if r["fn"] in loose else json.dumps(r["payload"], sort_keys=True))
+                got[k] = got.get(k, 0) + 1
             if want != got:
                 d = [(k, want.get(k, 0), got.get(k, 0)) for k in sorted(set(want) | set(got)) if want.get(k) != got.get(k)]
                 findings.append({"property": prop, "rule": "task-requests-differ-from-model", "witness": None,
